@@ -141,6 +141,7 @@ def run(chk):
     specs = gen(chk)
     scens = [build(chk.rng, *p) for p in specs]
     results = clientrun.run_scenarios(chk, scens)
+    clientrun.warm_correspondence(chk, scens)
     for p, s, (impl, model, mcase) in zip(specs, scens, results):
         cs, pins, i, j, k, l, variants, listed = p
         why = must_reject(pins, i, j, k, l, variants, listed)
